@@ -55,8 +55,9 @@ def infer_redirection(url, recursive=True):
     target = None
 
     if len(redirection_split) > 1:
-        # NOTE: avoiding empty AMP redirects etc.
-        if len(redirection_split[1]):
+        # NOTE: avoiding empty AMP redirects etc. (nothing, or only a query or
+        # a fragment, after the cache marker)
+        if len(redirection_split[1]) and redirection_split[1][0] not in "?#":
             target = "https://" + redirection_split[1]
 
     else:
